@@ -416,7 +416,10 @@ func runExplorer(name string, bound int, progressPath string, deadline time.Time
 		for ti := range x.results {
 			for ci, r := range x.results[ti] {
 				want := solo[ti][ci]
-				if r != want {
+				// two failures are the same result whatever their wording (the cache words a repeated
+				// failure differently from the first one): only error vs success, outputs and panics count
+				bothFail := r.Err != "" && want.Err != "" && !strings.HasPrefix(r.Err, "PANIC") && !strings.HasPrefix(want.Err, "PANIC")
+				if r != want && !bothFail {
 					cls := "result-differs"
 					if strings.HasPrefix(r.Err, "PANIC") {
 						cls = "panic"
